@@ -141,6 +141,43 @@ def cached(F, R):
                     'path: after a device rate change the cached value belongs to the old rate' % (adt, fn, d[:100], where, b.path),
                     detail={'struct': adt, 'field': fn, 'init': d[:140]}, where=b.file)
     R.floor('B.C16.cached', n, 1)
+    # ... the same for a value derived from the time step inside process(): a field that receives a pure function of `dt`
+    # (no dependence on its own previous value: not an accumulator or a filter state) is a cached coefficient; it is only
+    # right across a rate change if it is recomputed on every pass (not under a "has the parameter changed" test) or reset
+    # by on_change_sample_rate
+    import re
+    from ..rules import must_pass
+    np_ = 0
+    for b in F.bodies:
+        if b.krate != 'kira' or not (b.path.endswith(' as effect::Effect>::process') or b.path.endswith(' as sound::Sound>::process')
+                                     or b.path.endswith(' as modulator::Modulator>::update')):
+            continue
+        np_ += 1
+        ty = b.path[1:].split(' as ')[0]
+        for bb, si, st in b.stmts():
+            if st['k'] != 'assign' or not st['lhs']['p'] or not pretty_place(b, st['lhs']).startswith('(*self).'):
+                continue
+            fld = pretty_place(b, st['lhs'])
+            d = describe_rv(b, st['rv'], depth=14, at=bb)
+            if not re.search(r'(?<![A-Za-z_.])dt(?![A-Za-z_])', d):
+                continue
+            base = fld.split('.')[1].split('[')[0]
+            if ('(*self).' + base) in d:
+                continue        # depends on its own previous value: state, not a cache
+            loops = [l for l in b.loops() if bb in l['blocks']]
+            if loops:
+                l = min(loops, key=lambda l: len(l['blocks']))
+                entry = [y for y in b.succ(l['header']) if y in l['blocks']]
+                every = must_pass(b, entry, [l['header']], [bb])
+            else:
+                every = all(b.dominates(bb, r) for r in b.return_blocks())
+            oc = F.body('<%s as effect::Effect>::on_change_sample_rate' % ty)
+            reset = oc is not None and any(s2['k'] == 'assign' and pretty_place(oc, s2['lhs']).startswith('(*self).' + base) for _, _, s2 in oc.stmts())
+            R.check(every or reset, 'B.C16.cached', 'process:%s.%s' % (ty, base),
+                    '%s keeps a value derived from the time step (%s) in self.%s and refreshes it only on some passes: after a '
+                    'device rate change the stale value belongs to the old rate' % (b.path, d[:100], base),
+                    detail={'field': base, 'value': d[:140]}, where=b.where(bb))
+    R.floor('B.C16.cached-process-bodies', np_, 10)
 
 
 def pretty_rv(b, rv):
